@@ -87,6 +87,15 @@ ZOO = {
     "US-eap": Z("clf", lambda s, ml: UncertaintySampling(method="expected_average_precision", random_state=s, missing_label=ml), clf_kw),
     "EpistemicUS": Z("clf", lambda s, ml: EpistemicUncertaintySampling(random_state=s, missing_label=ml), clf_kw,
                      samplewise=(True, True), arbitrary_idx=True),
+    # non-default configurations of the same strategies (the property quantifies over their flags as well)
+    "EpistemicUS-precompute": Z("clf", lambda s, ml: EpistemicUncertaintySampling(precompute=True, random_state=s, missing_label=ml), clf_kw,
+                                samplewise=(True, True), arbitrary_idx=True),
+    "QBC-variation_ratios": Z("clf", lambda s, ml: QueryByCommittee(method="variation_ratios", random_state=s, missing_label=ml), ens_kw,
+                              samplewise=(False, False), arbitrary_idx=True),
+    "ProbabilisticAL-m_max2": Z("clf", lambda s, ml: ProbabilisticAL(m_max=2, prior=0.5, random_state=s, missing_label=ml), clf_kw,
+                                samplewise=(True, True), arbitrary_idx=True),
+    "MonteCarloEER-log_loss": Z("clf", lambda s, ml: MonteCarloEER(method="log_loss", subtract_current=True, random_state=s, missing_label=ml), clf_kw,
+                                samplewise=(True, True), slow=True),
     "ProbabilisticAL": Z("clf", lambda s, ml: ProbabilisticAL(random_state=s, missing_label=ml), clf_kw, samplewise=(True, True),
                          arbitrary_idx=True),
     "ProbabilisticAL-metric": Z("clf", lambda s, ml: ProbabilisticAL(random_state=s, missing_label=ml, metric="rbf"), clf_kw),
